@@ -21,7 +21,7 @@ def run(res, tier, replay=None):
         "key as its single weak slot, the value as the one extra slot, neither strongly traced, and some function that "
         "reads the weak columns can reach the marker (value retention); (c) every close/fclose of a fileno's fd or a "
         "port's stream, in any unit incl. generated stubs, is dominated by the owner's openp test and the store "
-        "openp=0; fileno.count has one decrement site, is only ever incremented / decremented on objects not allocated on the "
+        "openp=0; every decrement of fileno.count is the operand of a zero test, the count is only ever incremented / decremented on objects not allocated on the "
         "spot, and goes up in the function that stores a fileno into a port; (e) a non-owning cpointer that wraps memory reached "
         "through another cpointer's C value (generated struct-field getters, readdir) names that object as its parent; (d) every reference field of every type row is inside the range "
         "the marker traces (the clause shared with C02.R5: an untraced owner slot lets the owned object be finalized while "
